@@ -1,6 +1,8 @@
 package props
 
 import (
+	"fmt"
+	"strings"
 	"testing"
 
 	"github.com/jamespfennell/gtfs"
@@ -99,9 +101,24 @@ func TestC01(t *testing.T) {
 		}
 		o.ExplicitDefaults = true
 		f, info := sgen.GenFeed(t, o)
+		inflated := 0
+		if k := rapid.IntRange(0, 199).Draw(t, "inflate"); k == 0 || (tierThorough() && k < 8) {
+			// size-dependent behaviour: a few hundred to a few thousand rows, and very long cells
+			inflated = rapid.SampledFrom([]int{300, 1100, 4200}).Draw(t, "inflateTo")
+			if !tierThorough() {
+				inflated = 300
+			}
+			f = sgen.InflateFeed(f, inflated)
+			if len(f.Stops) > 0 {
+				f.Stops[len(f.Stops)-1].Desc = strings.Repeat("long description, with commas and \"quotes\" ", rapid.SampledFrom([]int{100, 1700}).Draw(t, "longCell"))
+			}
+		}
 		p, dims := sgen.GenPresentation(t, f.Tables())
 		c := CaseStatic{Feed: f, Pres: p, Inherit: rapid.Bool().Draw(t, "inherit")}
 		classes, files2 := staticClasses(f, info, dims)
+		if inflated > 0 {
+			classes = append(classes, fmt.Sprintf("inflated-to-%d-rows", inflated))
+		}
 		c01Rec.Eval(classes...)
 		if info.MovedDates > 0 {
 			c01Rec.Exclude("date without a unique local midnight moved to the next day")
